@@ -24,6 +24,9 @@ struct World {
     stub: EvmStub,
     near: Vec<Keypair>,
     far: Keypair,
+    /// in the routing table, but not among the K closest peers
+    far_known: Keypair,
+    far_mode_known: bool,
     forger: Keypair,
     key_ids: HashMap<String, usize>,
     op_ids: HashMap<String, usize>,
@@ -31,6 +34,15 @@ struct World {
     run: u64,
 }
 
+fn sha256_bytes(b: &[u8]) -> [u8; 32] {
+    use sha2::Digest;
+    sha2::Sha256::digest(b).into()
+}
+fn xor32(a: &[u8; 32], b: &[u8; 32]) -> [u8; 32] {
+    let mut o = [0u8; 32];
+    for i in 0..32 { o[i] = a[i] ^ b[i]; }
+    o
+}
 fn uz(v: &Value) -> u64 {
     v.as_u64().unwrap_or(0)
 }
@@ -43,13 +55,22 @@ impl World {
         let mut rng = StdRng::seed_from_u64(seed);
         let stub = EvmStub::start();
         let mut n = NodeH::new(&mut rng, root, stub.network());
-        let near: Vec<Keypair> = (0..3).map(|_| keypair(&mut rng)).collect();
-        for (i, k) in near.iter().enumerate() {
+        // 30 peers in the routing table, ordered by distance to the node: the three closest are the payees the node
+        // "knows as close"; the farthest one is KNOWN to the node but not among its K closest (self + 19)
+        let me_d = sha256_bytes(&n.peer.to_bytes());
+        let mut cands: Vec<(Keypair, [u8; 32])> = (0..30).map(|_| { let k = keypair(&mut rng); let d = xor32(&me_d, &sha256_bytes(&PeerId::from(k.public()).to_bytes())); (k, d) }).collect();
+        cands.sort_by(|a, b| a.1.cmp(&b.1));
+        for (i, (k, _)) in cands.iter().enumerate() {
             n.add_peer(&PeerId::from(k.public()), 40000 + i as u16);
         }
+        let near: Vec<Keypair> = cands[..3].iter().map(|x| x.0.clone()).collect();
+        let far_known = cands[29].0.clone();
+        let closest = n.driver.verif_closest_k_value_local_peers();
+        assert!(near.iter().all(|k| closest.contains(&PeerId::from(k.public()))), "near payees must be among the K closest");
+        assert!(!closest.contains(&PeerId::from(far_known.public())), "the known-far payee must not be among the K closest");
         let far = keypair(&mut rng);
         let forger = keypair(&mut rng);
-        World { n, stub, near, far, forger, key_ids: HashMap::new(), op_ids: HashMap::new(), pad_contents: HashMap::new(), run: 0 }
+        World { n, stub, near, far, far_known, far_mode_known: false, forger, key_ids: HashMap::new(), op_ids: HashMap::new(), pad_contents: HashMap::new(), run: 0 }
     }
     fn kid(&mut self, key: &RecordKey) -> usize {
         let h = hex::encode(key.as_ref());
@@ -150,7 +171,9 @@ fn build(w: &mut World, d: &Value) -> Built {
     let d = &dv;
     let pay = if d["pay"].is_object() { Some(Pay::from_json(&d["pay"])) } else { None };
     let me = w.n.kp.clone();
-    let mk_proof = |w: &World, content: XorName, p: Pay| proof(&me, &w.near, &w.far, &w.forger, content, p);
+    // a payee that is not close: unknown to the node (even slots) or known but beyond its K closest peers (odd slots)
+    let known_far = w.far_mode_known;
+    let mk_proof = |w: &World, content: XorName, p: Pay| proof(&me, &w.near, if known_far { &w.far_known } else { &w.far }, &w.forger, content, p);
     let (value, derived): (Vec<u8>, RecordKey) = match kind {
         "Chunk" | "ChunkWithPayment" => {
             // "collide": the chunk whose bytes are the slot owner's public key shares its address with the owner's
@@ -365,7 +388,15 @@ async fn run() {
     gates_install();
     let mut w = World::new(seed, work.join("node"));
     if let Some(p) = arg("--scenarios") {
+        // a scenario with a payee that is not close runs twice: the payee unknown to the node, then known but far
+        let mut list = vec![];
         for scn in read_ndjson(&p) {
+            let not_close = scn.as_array().map(|a| a.iter().any(|s| s["pay"].is_object() && s["pay"]["close"] == json!(false))).unwrap_or(false);
+            list.push((scn.clone(), false));
+            if not_close { list.push((scn, true)); }
+        }
+        for (scn, far_known) in list {
+            w.far_mode_known = far_known;
             w.run += 1;
             w.key_ids.clear();
             w.op_ids.clear();
